@@ -169,6 +169,8 @@ func c04Searches(p *run.Part, tier string) []*seqx.Search {
 		mk(CfgDef2, "", nil, rich2, d2+1),
 		mk(CfgShared3, "", nil, Alphabet(3, false), d3-1),
 		mk(CfgClk3, "", nil, Alphabet(3, false), d3-1),
+		mk(CfgFww3, "", nil, Alphabet(3, false), d3),
+		mk(CfgFww3, "+fork12", Prefixes["+fork12"], rich3, pd),
 		mk(CfgDef3, "+chain20", Prefixes["+chain20"], rich3, pd),
 		mk(CfgDef3, "+fork12", Prefixes["+fork12"], rich3, pd),
 		mk(CfgDef3, "+setid", c04Prefixes["+setid"], rich3, pd+1),
